@@ -52,6 +52,9 @@ func init() {
 		if len(b) == 0 {
 			return Tuple{term.FC(64, 0), in.numError("ParseFloat", s, "invalid syntax")}
 		}
+		if r, ok := in.parseFloatDecimal(s, b, neg, bits); ok { // fraction / exponent forms: intr_strconv_float.go
+			return r
+		}
 		if len(b) > 15 {
 			panic(in.inconclusive("strconv.ParseFloat of a symbolic string longer than 15 digits"))
 		}
